@@ -76,7 +76,7 @@ def scenario(ck, trial, tier, cs0, max_attempts=None):
         events.append([3, [[1, 2412], [2, 2412], [3, 2412]]])
         observed.append(book_of(node))
         t = net.clock()
-        nsteps = 50 if tier == 'quick' else 100
+        nsteps = 50 if tier == 'quick' else 160
         mid = 10
         # every second scenario starts with a scripted prefix: dial the known addresses, an incoming peer greets, the
         # greeting listener greets and then closes, the incoming peer announces that very address, the manager steps 1 s
@@ -366,7 +366,7 @@ def atomic_probe(ck, tier):
     if os.path.exists(name):
         os.unlink(name)
     di = DI.DiskInterface()
-    for k in range(6 if tier == 'quick' else 40):
+    for k in range(6 if tier == 'quick' else 200):
         peer = RP.DisconnectedRemotePeer('10.3.%d.%d' % (k // 200, k % 200 + 1), 2412, 'OUTGOING', None, 0)
         old_disk = open(name, 'rb').read() if os.path.exists(name) else None
         tr = W15.Tracer(name)
@@ -426,7 +426,7 @@ def run(tier, seed):
     from skepticoin.networking import params as NP
     cs0 = CoinState.zero()
     reqs, wants = [], []
-    for trial in range(10 if tier == 'quick' else 60):
+    for trial in range(10 if tier == 'quick' else 300):
         # every third scenario runs with the give-up limit lowered to 3 consecutive greeting-less failures (the shipped 2880
         # would need months of simulated time), patched wherever the networking modules look the constant up
         ma = 3 if trial % 3 == 2 else None
